@@ -42,7 +42,7 @@ def run(tier, v):
     wd = vlib.workdir(PID)
     vlib.build_harness()
     K = set(vlib.known_devs(PID))
-    fams = ["start", "hdrs", "ows", "cookie", "lang", "many", "dup"]
+    fams = ["start", "hdrs", "ows", "cookie", "lang", "many", "dup", "long"]
     n = n_heads = states = trans = 0
     samples = []
     for fam in fams:
@@ -105,7 +105,7 @@ def run(tier, v):
     return v.finish("model_checking", {
         "states": states, "transitions": trans, "traces_validated_against_impl": n,
         "evaluations": n, "distinct_nontrivial": n_heads,
-        "rule": "%d heads of MC_C05 (families start/hdrs/ows/cookie/lang/many/dup; header lists up to length %d) x %d bodies; non-trivial = distinct heads" % (n_heads, 3 if tier == "thorough" else 2, len(BODIES)),
+        "rule": "%d heads of MC_C05 (families start/hdrs/ows/cookie/lang/many/dup/long; header lists up to length %d) x %d bodies; non-trivial = distinct heads" % (n_heads, 3 if tier == "thorough" else 2, len(BODIES)),
         "samples": samples or [{"note": "none drawn"}], "exhaustive": True,
     }, ["heads are ASCII with CRLF line ends (every third head in quick, all in thorough, also with bare LF line ends); bodies carry the binary / UTF-8 dimension", "position, timing and metadata fields are not compared",
         "Cookie / Referer are not duplicated within one head", "the language table is restricted to en/fr/de/es in the specification"])
